@@ -897,7 +897,7 @@ def search(ctx, budget_s):
     t0 = time.time()
     rng = random.Random(ctx.seed + 77)
     n = 0
-    while time.time() - t0 < budget_s and n < 20000:
+    while time.time() - t0 < budget_s / 2.0 and n < 20000:
         case = gen_case(rng, 30)
         obs = observe(case)
         v = oracle(case, obs)
@@ -907,6 +907,8 @@ def search(ctx, budget_s):
             if ctx.violations:
                 return
     ctx.notes.append("search: %d further histories through the oracle, no unlisted violation" % n)
+    from dv import c10_copy
+    c10_copy.search_m(ctx, budget_s / 2.0)
 
 
 def run(tier, seed, replay=None):
@@ -923,7 +925,8 @@ def run(tier, seed, replay=None):
         obs = observe(case)
         print("oracle:", oracle(case, obs))
         return 0
-    ok = proof_ok = core.proof_stage(ctx, ["Model/C10ModelExt.vo", "Props/C10.vo"], gen_needed=("BitFns", "Namespace"))
+    ok = proof_ok = core.proof_stage(ctx, ["Model/C10ModelExt.vo", "Model/C10CopyModel.vo", "Props/C10.vo"],
+                                          gen_needed=("BitFns", "Namespace", "NamespaceCopy"))
     if not ok:
         core.broken_proof(ctx, search)
     n = 400 if tier == "quick" else 6000
@@ -981,6 +984,9 @@ def run(tier, seed, replay=None):
     core.corr_stage(ctx, xcases, observe_x, to_coq_x, XHEADER, "xcase_ok", oracle=oracle_x,
                     show_fn="xcase_run", nontrivial=nontrivial, search=None, shard=250, label="xops correspondence",
                     sample_fn=lambda c, o: {"ops": c["ops"][:10], "pool": c["pool"]})
+    # third wave: histories over SEVERAL namespaces (constructors, copy.copy, copy.deepcopy, ==, <): Model/C10CopyModel.v
+    from dv import c10_copy
+    c10_copy.stage(ctx, tier)
     # direct tie of the string-based helpers bitprocessing.int_as_bitstring / bit_length (hand-modelled:
     # bin / lstrip / rjust are outside py2coq's integer subset)
     from dendropy.utility import bitprocessing
@@ -1011,4 +1017,4 @@ def run(tier, seed, replay=None):
                     XHEADER, "bcase_ok", oracle=oracle_b, show_fn="bcase_run", nontrivial=lambda c, o: c["n"] > 1,
                     search=None, shard=400, label="bitstring correspondence")
     return ctx.finish(level="proof",
-                      rule="random op histories (<=25 quick / <=60 thorough ops) drawn by a state-aware generator (operands mostly members / present labels incl. case variants / subsets of live bits; taxa_bitmask followed by bitmask_taxa_list of its result) over label pools with duplicates and case variants, both case settings, several API spellings per op (append/add_taxa, del ns[i]/remove, copy.copy, split_as_newick_string, get_taxa_bitmask); thorough adds every history of length <=3 over a 24-op alphabet and every history of length 4 over an 11-op alphabet; a case is non-trivial when it has >=3 executed ops and reaches a namespace with >=2 members; distinct by full case content; second wave: 300 quick / 4000 thorough such histories with bitmask_as_bitstring, split_as_string, label_taxon_map, taxa_bipartition(taxa=/labels=), taxa_bitmask(labels=), get_taxa_bitmask, ns[i], ns[a:b], ns[label], in, labels() interleaved; 200 quick / 1570 thorough (n, length) pairs for int_as_bitstring / bit_length")
+                      rule="random op histories (<=25 quick / <=60 thorough ops) drawn by a state-aware generator (operands mostly members / present labels incl. case variants / subsets of live bits; taxa_bitmask followed by bitmask_taxa_list of its result) over label pools with duplicates and case variants, both case settings, several API spellings per op (append/add_taxa, del ns[i]/remove, copy.copy, split_as_newick_string, get_taxa_bitmask); thorough adds every history of length <=3 over a 24-op alphabet and every history of length 4 over an 11-op alphabet; a case is non-trivial when it has >=3 executed ops and reaches a namespace with >=2 members; distinct by full case content; second wave: 300 quick / 4000 thorough such histories with bitmask_as_bitstring, split_as_string, label_taxon_map, taxa_bipartition(taxa=/labels=), taxa_bitmask(labels=), get_taxa_bitmask, ns[i], ns[a:b], ns[label], in, labels() interleaved; 200 quick / 1570 thorough (n, length) pairs for int_as_bitstring / bit_length; multi-namespace wave: 240 quick / 5000 thorough histories (<=22 / <=50 ops) over up to 5 namespaces sharing Taxon objects, built by TaxonNamespace() / TaxonNamespace([taxa and labels]) / TaxonNamespace(other) with and without the is_mutable / is_case_sensitive keywords, copy.copy, __copy__, copy.deepcopy, with the base operations addressed to any of them (operands steered to members, to taxa of the OTHER namespaces and to present labels), taxon_namespace_scoped_copy, == and <; every namespace is observed after every step (members, indices, counter via all_taxa_bitmask, flags; in half of the cases also taxon_bitmask of every member)")
